@@ -305,12 +305,35 @@ func episodes(lines []logLine, tag string) []chanEp {
 //	"chan-collapse" both ends were in the channel, nobody asked for its end and no deadline
 //	                expired, yet the server's writer was told to stop
 //	"chan-open"     no channel ended while the job was outstanding
-func chanVerdict(lines []logLine, tag string, offs []time.Time, from time.Time) (string, string) {
+func chanVerdict(lines []logLine, tag string, offs []time.Time, from, to time.Time) (string, string) {
+	// any error of either end of the session while the job was outstanding (channel loops and
+	// plain exchanges alike), and any sign of a channel end or of a new channel
+	var errLine, endLine string
+	for _, l := range lines {
+		if !strings.Contains(l.s, tag) || l.t.Before(from.Add(-5*time.Millisecond)) || l.t.After(to) {
+			continue
+		}
+		if l.lv == 'E' && errLine == "" {
+			errLine = l.s
+		}
+		if endLine == "" && (strings.Contains(l.s, "indicated channel close") || strings.Contains(l.s, "Breaking Channel") ||
+			strings.Contains(l.s, "Closed Channel") || strings.Contains(l.s, "Started Channel")) {
+			endLine = l.s
+		}
+	}
 	for _, e := range episodes(lines, tag) {
 		if e.ended && e.end.Before(from.Add(-5*time.Millisecond)) {
 			continue
 		}
 		if !e.ended {
+			// a channel that is still open: a violation only if NOTHING was logged about the
+			// connections of this session while the job was outstanding
+			if errLine != "" {
+				return "chan", errLine
+			}
+			if endLine != "" {
+				return "chan", endLine
+			}
 			return "chan-open", ""
 		}
 		for _, t := range offs {
@@ -324,9 +347,18 @@ func chanVerdict(lines []logLine, tag string, offs []time.Time, from time.Time) 
 		// The server's writer is told to stop (pick returns nil on a wake token) by conn.stop of
 		// its own reader, i.e. AFTER the reader logged its end, or after the operator's switch.
 		// If that line is the earliest sign of the end (causally first: the connection is only
-		// closed after it is logged), nobody had a reason to end this channel.
+		// closed after it is logged) and no end of the session logged an error between the start
+		// of this channel and that line, nobody had a reason to end this channel.
 		if strings.Contains(e.line, ":S->C:W] Session indicated channel close") {
-			return "chan-collapse", e.line
+			clean := true
+			for _, l := range lines {
+				if l.lv == 'E' && strings.Contains(l.s, tag) && !l.t.Before(e.start.Add(-5*time.Millisecond)) && l.t.Before(e.end) {
+					clean = false
+				}
+			}
+			if clean {
+				return "chan-collapse", e.line
+			}
 		}
 		return "chan", e.line
 	}
@@ -1024,11 +1056,17 @@ func runHist(h Hist, idSeed uint64) (res HRes) {
 			if h.Profile == "none" {
 				// which channel end (if any) took the packet?  (the log knows about channels the
 				// 2 ms poller missed: SetChannel(true); SetChannel(false) back to back still opens one)
-				kind, why = chanVerdict(logLines, tag, offs[j.c], j.tTask)
+				kind, why = chanVerdict(logLines, tag, offs[j.c], j.tTask, verdictAt)
 				if kind != "none" {
 					j.inChan = true
 				} else if j.inChan {
-					kind = "chan-open"
+					// the harness saw the channel bit but the log shows no channel around the job:
+					// judge it like a polling job (transport errors excuse it), else it is a loss
+					// with the channel requested and nothing wrong logged
+					kind, j.inChan = "chan-open", false
+					if ok, _ := transportFault(logLines, tag, j.tTask, verdictAt); !ok {
+						j.inChan = true
+					}
 				}
 			}
 			switch {
@@ -1343,6 +1381,17 @@ func teardown(class string, size, n int) Hist {
 	return h
 }
 
+// burst: many tiny tasks through an open channel on a fast link: the result of a task can be
+// back before Task has registered the Job (known finding incomplete/untracked-result)
+func burst(class string, n int) Hist {
+	h := Hist{Class: class, NCl: 2, Profile: "none", SleepMs: []int{5, 10}, MaxJobs: 4, MaxSlots: 100,
+		Ops: []Op{{Kind: "chan", C: 0, On: true}, {Kind: "pause", C: 0, Val: 30}}}
+	for i := 0; i < n; i++ {
+		h.Ops = append(h.Ops, Op{Kind: "task", C: 0, Size: i % 2, Seed: uint32(500 + i)})
+	}
+	return h
+}
+
 func corpus() []Hist {
 	F := limits.Frag
 	return []Hist{
@@ -1368,6 +1417,7 @@ func corpus() []Hist {
 				{Kind: "chan", C: 0, On: true}, {Kind: "pause", Val: 60}, {Kind: "task", C: 0, Size: 100, Seed: 44}, {Kind: "pause", Val: 300},
 				{Kind: "task", C: 0, Size: 1024, Seed: 45}, {Kind: "pause", Val: 300}, {Kind: "chan", C: 0, On: false}, {Kind: "pause", Val: 400},
 				{Kind: "chan", C: 0, On: true}, {Kind: "pause", Val: 60}, {Kind: "task", C: 0, Size: 1, Seed: 46}, {Kind: "task", C: 1, Size: 100, Seed: 47}}},
+		burst("corpus-channel-burst", 400),
 		teardown("corpus-channel-teardown", 100, 44),
 		teardown("corpus-channel-teardown-frag", F+1, 14),
 		{Class: "corpus-channel-xorzlib", NCl: 2, Profile: "xorzlib", SleepMs: []int{20, 20}, MaxJobs: 40, MaxSlots: 100,
